@@ -37,13 +37,13 @@ PART = {
                 "reject / join, abort, execute (real DKG, ~35% of histories may execute), failed execution (all bundles lost) and retry at the same "
                 "epoch, expiry of short real timeouts, every invalid proposal class as a command and as a packet correctly signed with the claimed "
                 "leader's real key (stale epoch, nil / empty terms, expired timeout, threshold below minimum / above n, member dropped, genesis time / "
-                "seed changed, unknown scheme, leader not remaining / leaving / joining, foreign beacon id), forged accept/reject/abort/execute packets "
+                "seed changed, unknown scheme, beacon period changed / scheme changed towards a remainer and towards a leaver, leader not remaining / leaving / joining, foreign beacon id), forged accept/reject/abort/execute packets "
                 "claiming leader / remainer / joiner / leaver / outsider (well signed or signed by somebody else), replays of recorded packets, commands "
-                "from the wrong node. Directed family 'left' (every 25th history): epoch 1, 1-2 reshares with everybody remaining, a reshare in which "
+                "from the wrong node. Directed family 'left' (every 20th history; every second one goes straight to the re-invitation): epoch 1, 1-2 reshares with everybody remaining, a reshare in which "
                 "node X leaves and the others complete (X holds Left@E, E>=3, finished E-1), optionally one more epoch without X; X is then sent 16 "
                 "invalid invitation classes correctly signed by a current member (stale epochs E, E-1, E-2, epoch 1 in first-proposal shape, expired "
                 "timeout, threshold low/high, unknown scheme, genesis time/seed changed, leader joining/leaving, nil/empty terms, foreign beacon "
-                "id, X missing) and finally the valid re-invitation by a real command, which must be accepted. Oracle: (a)-(c) on EVERY write that reaches a node's bolt store (store tap, raw records read before/after the "
+                "id, X missing) and finally the valid re-invitation by a real command, which must be accepted, X's join with the current group file must be accepted, and the undisturbed DKG must complete for X (C08/not-recoverable/rejoin-dkg-of-left-node-fails; inconclusive when timer lag >150 ms or a bundle took more than half a phase; the re-invitation waits until the execution of the epoch X left in has ended, 2-3 phase time-outs after its kick-off). Oracle: (a)-(c) on EVERY write that reaches a node's bolt store (store tap, raw records read before/after the "
                 "write): legal edge for the node's place in the proposal per the harness's own table incl. the terminal-state fall-back, epoch "
                 "monotone, finished record bytes replaced only by SaveFinished(Complete, higher epoch) from Executing; per step: an error answer "
                 "leaves the finished record byte-identical, invalid proposal classes are refused and write nothing, a panic of the real code is a "
